@@ -197,7 +197,9 @@ pub fn run_case(c: &Case) -> Value {
                     wr.write_all(&data).map_err(|e| e.to_string())?;
                     wr.finish().map_err(|e| e.to_string())?;
                 } else {
-                    let mut wr = LZMAWriter::new_use_header(&mut stream, &l, Some(data.len() as u64)).map_err(|e| e.to_string())?;
+                    // unknown size (end marker): with a known size smaller than the dictionary LZMAReader
+                    // legitimately shrinks its window to the content, which (dict_size, props) cannot tell
+                    let mut wr = LZMAWriter::new_use_header(&mut stream, &l, None).map_err(|e| e.to_string())?;
                     wr.write_all(&data).map_err(|e| e.to_string())?;
                     wr.finish().map_err(|e| e.to_string())?;
                 }
